@@ -284,7 +284,7 @@ class Runner(object):
 
 def plan(tier, seed):
     n = 16
-    return [dict(part=i, nparts=n, seed=seed * 100 + i, nrand=9 if tier == 'quick' else 210, length=120 if tier == 'quick' else 200, tier=tier) for i in range(n)]
+    return [dict(part=i, nparts=n, seed=seed * 100 + i, nrand=18 if tier == 'quick' else 210, length=120 if tier == 'quick' else 200, tier=tier) for i in range(n)]
 
 
 def run_shard(sh):
